@@ -131,6 +131,11 @@ func c02Gen(tier string, seed int64) []fw.Case {
 		}
 		codes := []int{1000, 1001, 1002, 1003, 1007, 1008, 1009, 1010, 1011, 1012, 1013, 1014, 3000, 3999, 4000, 4999, 1005}
 		d.CloseCode = codes[rng.Intn(len(codes))]
+		if rng.Intn(6) == 0 {
+			// codes that may not appear on the wire: whatever Close does with them, it must not send them
+			bad := []int{0, 999, 1004, 1006, 1015, 1016, 1100, 1999, 2000, 2999, 5000, 65535}
+			d.CloseCode = bad[rng.Intn(len(bad))]
+		}
 		d.CloseRsn = []int{0, 1, 10, 122, 123}[rng.Intn(5)]
 		if d.CloseCode == 1005 {
 			d.CloseRsn = 0
@@ -417,12 +422,18 @@ func c02Run(r *fw.R, d c02Desc, tier string) {
 	}
 	reason := strings.Repeat(ru, d.CloseRsn)
 	cerr := c.Close(websocket.StatusCode(d.CloseCode), reason)
-	sendable := len(reason) <= 123
+	sendable := len(reason) <= 123 && (wire.CodeOnWire(d.CloseCode) || d.CloseCode == 1005)
+	if !wire.CodeOnWire(d.CloseCode) && d.CloseCode != 1005 {
+		r.Count("close_calls_with_unsendable_code", 1)
+		r.Key("%s/close/unsendable-code/%d", d.Role, d.CloseCode)
+	}
 	if !sendable {
 		// the reason cannot be sent as given: whatever Close frame goes out instead must be a legal one
 		// (the monitor rejects a control frame above 125 payload bytes)
-		r.Count("close_calls_with_unsendable_multibyte_reason", 1)
-		r.Key("%s/close/unsendable-reason/char-bytes=%d/chars=%d", d.Role, len(ru), d.CloseRsn)
+		if len(reason) > 123 {
+			r.Count("close_calls_with_unsendable_multibyte_reason", 1)
+			r.Key("%s/close/unsendable-reason/char-bytes=%d/chars=%d", d.Role, len(ru), d.CloseRsn)
+		}
 	} else if cerr != nil {
 		r.Violate("C02/close-failed", fmt.Sprintf("Close(%d, %d byte reason) against an echoing peer returned %v", d.CloseCode, d.CloseRsn, cerr), "")
 	}
